@@ -69,6 +69,10 @@ type op =
   | Hand of n * n * item list
   | ClearCache of char
   | RemoveFabric of char * n
+  | UpdateNoc of char * n * string
+  | SaveCache of char
+  | RestoreCache of char
+  | Unknown
 
 let parse_item s : item =
   match String.split_on_char '.' s with
@@ -95,7 +99,10 @@ let parse_op s : op =
             if script = "-" then [] else List.map parse_item (String.split_on_char '+' script))
   | ["cc"; nd] -> ClearCache nd.[0]
   | ["rf"; nd; idx] -> RemoveFabric (nd.[0], n_of_string idx)
-  | _ -> failwith ("bad op " ^ s)
+  | ["un"; nd; idx; spec] -> UpdateNoc (nd.[0], n_of_string idx, spec)
+  | ["cs"; nd] -> SaveCache nd.[0]
+  | ["cr"; nd] -> RestoreCache nd.[0]
+  | _ -> Unknown
 
 type case = { id : string; clk : clock; certs : cert array; fa : string list; fb : string list; ops : op list }
 
@@ -127,17 +134,26 @@ let n3 = n_of_int
 let ipk_term (epoch : n) (rootkey : n) (fid : n) : term =
   THkdf (TNonce (N.add (n3 1000) epoch), TPair (TNum rootkey, TNum fid), TNum N0)
 
-let make_fabrics (c : case) (specs : string list) : fabric list =
-  List.mapi (fun i s ->
+let make_fabric (c : case) (idx : n) (s : string) : fabric =
     match String.split_on_char '.' s with
     | [r; nc; ic; sk; ipk] ->
         let root = c.certs.(int_of_string r) and noc = c.certs.(int_of_string nc) in
         let icac = if ic = "-" then None else Some c.certs.(int_of_string ic) in
         let fid = match get_fabric_id noc with Some f -> f | None -> failwith "own NOC without fabric id" in
         let nid = match get_node_id noc with Some f -> f | None -> failwith "own NOC without node id" in
-        { f_idx = n3 (i + 1); f_root = root; f_noc = noc; f_icac = icac; f_sk = n_of_string sk;
+        { f_idx = idx; f_root = root; f_noc = noc; f_icac = icac; f_sk = n_of_string sk;
           f_ipk = ipk_term (n_of_string ipk) root.pubkey fid; f_fid = fid; f_nid = nid }
-    | _ -> failwith ("bad fabric " ^ s)) specs
+    | _ -> failwith ("bad fabric " ^ s)
+
+let make_fabrics (c : case) (specs : string list) : fabric list =
+  List.mapi (fun i s -> make_fabric c (n3 (i + 1)) s) specs
+
+(* Fabrics::remove then Fabrics::add: the new fabric gets index max + 1 *)
+let update_noc (c : case) (st : node) (idx : n) (spec : string) : node * int option =
+  if not (List.exists (fun f -> N.eqb f.f_idx idx) st.n_fabrics) then (st, None) else
+  let l = List.filter (fun f -> not (N.eqb f.f_idx idx)) st.n_fabrics in
+  let mx = List.fold_left (fun acc f -> max acc (int_of_n f.f_idx)) 0 l in
+  ({ st with n_fabrics = l @ [ make_fabric c (n3 (mx + 1)) spec ] }, Some (mx + 1))
 
 let make_node (c : case) specs : node =
   { n_fabrics = make_fabrics c specs; n_cache = []; n_sessions = []; n_next_id = N0; n_clock = c.clk }
@@ -256,8 +272,18 @@ let run_scenario (c : case) (with_scripts : bool) : string =
   let a = ref (make_node c c.fa) and b = ref (make_node c c.fb) in
   let known_a = ref [] and known_b = ref [] in
   let history : (n * msg) list list ref = ref [] in
+  let saved_a = ref [] and saved_b = ref [] in
   let out = List.map (fun op ->
     match op with
+    | Unknown -> "?"
+    | SaveCache nd -> (if nd = 'A' then saved_a := !a.n_cache else saved_b := !b.n_cache); "cs"
+    | RestoreCache nd ->
+        (if nd = 'A' then a := { !a with n_cache = !saved_a } else b := { !b with n_cache = !saved_b }); "cr"
+    | UpdateNoc (nd, idx, spec) ->
+        let r = if nd = 'A' then a else b in
+        let (st, res) = update_noc c !r idx spec in
+        r := st;
+        (match res with Some i -> Printf.sprintf "un%d" i | None -> "un-fail")
     | ClearCache nd ->
         if nd = 'A' then a := { !a with n_cache = [] } else b := { !b with n_cache = [] };
         "cc"
@@ -356,11 +382,16 @@ let spec_line (line : string) =
     let mut_s3 = List.map parse_s3 (hs mut) in
     let a0 = make_node c c.fa and b0 = make_node c c.fb in
     let a = ref a0 and b = ref b0 in
+    (* the credentials the responder node holds, fabric removals ignored (see below) *)
+    let b_auth = ref b0 in
     let viols = ref [] in
     let run = ref 0 in
     List.iter (fun op ->
       match op with
-      | ClearCache _ -> ()
+      | ClearCache _ | SaveCache _ | RestoreCache _ | Unknown -> ()
+      | UpdateNoc (nd, idx, spec) ->
+          if nd = 'A' then a := fst (update_noc c !a idx spec)
+          else begin b := fst (update_noc c !b idx spec); b_auth := fst (update_noc c !b_auth idx spec) end
       | RemoveFabric (nd, idx) ->
           if nd = 'A' then a := fst (remove_fabric !a idx) else b := fst (remove_fabric !b idx)
       | Hand (fab, peer, script) ->
@@ -369,7 +400,7 @@ let spec_line (line : string) =
            | Some o ->
                (* the initiator's session speaks about the credentials the peer held when they were checked
                   (possibly in the run that created the resumption record): initial fabrics of the peer *)
-               let al_i = allowed_i !a b0 fab peer in
+               let al_i = allowed_i !a !b_auth fab peer in
                let al_r = allowed_r !a !b fab peer in
                let base = if base_h = [] then None else List.nth_opt base_h !run in
                let base = if script = [] && base_h = [] then None else base in
